@@ -8,7 +8,9 @@
 #include <fcntl.h>
 #include <stdio.h>
 #include <string.h>
+#include <sys/stat.h>
 #include <sys/types.h>
+#include <sys/uio.h>
 #include <unistd.h>
 
 #include <sched.h>
@@ -23,6 +25,14 @@ ssize_t __real_read(int, void*, size_t);
 ssize_t __real_pread(int, void*, size_t, off_t);
 ssize_t __real_pread64(int, void*, size_t, off_t);
 int __real_close(int);
+ssize_t __real_write(int, const void*, size_t);
+ssize_t __real_pwrite(int, const void*, size_t, off_t);
+ssize_t __real_pwrite64(int, const void*, size_t, off_t);
+ssize_t __real_writev(int, const struct iovec*, int);
+ssize_t __wrap_write(int, const void*, size_t);
+ssize_t __wrap_pwrite(int, const void*, size_t, off_t);
+ssize_t __wrap_pwrite64(int, const void*, size_t, off_t);
+ssize_t __wrap_writev(int, const struct iovec*, int);
 ssize_t __wrap_read(int, void*, size_t);
 ssize_t __wrap_pread(int, void*, size_t, off_t);
 ssize_t __wrap_pread64(int, void*, size_t, off_t);
@@ -35,6 +45,15 @@ namespace io {
 // the real call would return; 0 means "no limit" (printed as F). After the plan is exhausted the limit is
 // "no limit", or the plan repeats when cycle is set.
 typedef std::vector<uint32_t> Plan;
+// fault entries: the call fails with -1/errno and transfers nothing (the data stays in the source / is not written)
+static const uint32_t P_EINTR = 0xFFFFFFF1u, P_EIO = 0xFFFFFFF2u, P_ENOSPC = 0xFFFFFFF3u;
+inline bool is_fault(uint32_t v) { return v >= 0xFFFFFFF0u; }
+inline int fault_errno(uint32_t v) { return v == P_EINTR ? EINTR : v == P_ENOSPC ? ENOSPC : EIO; }
+inline bool has_fault(const Plan& p) {
+  for (uint32_t v : p)
+    if (is_fault(v)) return true;
+  return false;
+}
 
 inline std::string plan_str(const Plan& p, bool cycle = false) {
   std::string s = "[";
@@ -44,7 +63,7 @@ inline std::string plan_str(const Plan& p, bool cycle = false) {
       s += "...(" + std::to_string(p.size()) + " entries)";
       break;
     }
-    s += p[i] ? std::to_string(p[i]) : "F";
+    s += p[i] == P_EINTR ? "EINTR" : p[i] == P_EIO ? "EIO" : p[i] == P_ENOSPC ? "ENOSPC" : p[i] ? std::to_string(p[i]) : "F";
   }
   s += cycle ? "]*" : "]";
   return s;
@@ -60,6 +79,7 @@ struct ReadMon {
   uint64_t bytes = 0;     // bytes delivered
   bool eof = false;       // a call asking for >0 bytes returned 0
   bool failed = false;    // a call returned -1
+  size_t faults = 0;      // injected failures (EINTR/EIO)
   bool keep = false;      // record delivered bytes
   std::string delivered;  // concatenation of everything delivered (when keep)
   inline size_t limit(size_t i) const {
@@ -110,6 +130,55 @@ inline void rendezvous_after_read() {
   }
 }
 
+// Write-side plan. Applied only to descriptors the harness registered: either a descriptor number, or (for helpers that
+// open the file themselves) the file identified by device/inode of a registered path. Everything else passes through.
+struct WriteMon {
+  std::atomic<bool> active{false};
+  int fd = -1;
+  std::string path;  // when fd < 0: descriptors referring to this file
+  const uint32_t* plan = nullptr;
+  size_t plan_len = 0;
+  size_t calls = 0, faults = 0, short_writes = 0;
+  uint64_t bytes = 0;
+  bool matches(int f) const {
+    if (f <= 2) return false;
+    if (fd >= 0) return f == fd;
+    struct stat a, b;
+    return ::fstat(f, &a) == 0 && ::stat(path.c_str(), &b) == 0 && a.st_dev == b.st_dev && a.st_ino == b.st_ino;
+  }
+};
+inline WriteMon& wm() {
+  static WriteMon m;
+  return m;
+}
+struct WritePlanScope {
+  WritePlanScope(int fd, const std::string& path, const Plan& p) {
+    WriteMon& m = wm();
+    m.fd = fd;
+    m.path = path;
+    m.plan = p.data();
+    m.plan_len = p.size();
+    m.calls = m.faults = m.short_writes = 0;
+    m.bytes = 0;
+    m.active = true;
+  }
+  ~WritePlanScope() { wm().active = false; }
+};
+// returns true if the call must fail (errno set); otherwise *ask is the number of bytes to pass on
+inline bool write_plan_step(size_t n, size_t* ask) {
+  WriteMon& m = wm();
+  size_t i = m.calls++;
+  uint32_t lim = i < m.plan_len ? m.plan[i] : 0;
+  if (is_fault(lim)) {
+    m.faults++;
+    errno = fault_errno(lim);
+    return true;
+  }
+  *ask = (lim && n > lim) ? lim : n;
+  if (*ask < n) m.short_writes++;
+  return false;
+}
+
 // RAII activation of a plan for one descriptor (or all descriptors when fd < 0).
 struct PlanScope {
   PlanScope(int fd, const Plan& p, bool cycle = false, bool keep = false) {
@@ -122,6 +191,7 @@ struct PlanScope {
     m.calls = 0;
     m.bytes = 0;
     m.eof = m.failed = false;
+    m.faults = 0;
     m.keep = keep;
     m.delivered.clear();
   }
@@ -171,6 +241,7 @@ struct Cookie {
   bool cycle = false;
   size_t calls = 0;
   bool eof = false;
+  size_t faults = 0;
   char small[300];  // user buffer for the small-buffer modes
 };
 
@@ -178,6 +249,11 @@ inline ssize_t cookie_read(void* cv, char* buf, size_t n) {
   Cookie* c = (Cookie*)cv;
   size_t i = c->calls++;
   size_t lim = i < c->plan_len ? c->plan[i] : (c->cycle && c->plan_len ? c->plan[i % c->plan_len] : 0);
+  if (is_fault((uint32_t)lim)) {
+    c->faults++;
+    errno = fault_errno((uint32_t)lim);
+    return -1;
+  }
   size_t m = n;
   if (lim && m > lim) m = lim;
   if (m > c->size - c->pos) m = c->size - c->pos;
@@ -206,6 +282,7 @@ inline FILE* open_cookie(Cookie* c, const std::string& payload, const Plan& p, b
   c->cycle = cycle;
   c->calls = 0;
   c->eof = false;
+  c->faults = 0;
   cookie_io_functions_t fns = {cookie_read, nullptr, nullptr, nullptr};
   FILE* f = fopencookie(c, "rb", fns);
   if (!f) {
@@ -236,6 +313,12 @@ ssize_t __wrap_read(int fd, void* buf, size_t n) {
   }
   if (m.fd >= 0 && fd != m.fd) return __real_read(fd, buf, n);
   size_t lim = m.limit(m.calls++);
+  if (io::is_fault((uint32_t)lim)) {
+    m.faults++;
+    m.failed = true;
+    errno = io::fault_errno((uint32_t)lim);
+    return -1;
+  }
   size_t ask = (lim && n > lim) ? lim : n;
   ssize_t r = __real_read(fd, buf, ask);
   if (r < 0) m.failed = true;
@@ -251,6 +334,12 @@ static inline ssize_t c14_pread_common(int fd, void* buf, size_t n, off_t off, b
   io::ReadMon& m = io::rm();
   if (!m.active || (m.fd >= 0 && fd != m.fd)) return is64 ? __real_pread64(fd, buf, n, off) : __real_pread(fd, buf, n, off);
   size_t lim = m.limit(m.calls++);
+  if (io::is_fault((uint32_t)lim)) {
+    m.faults++;
+    m.failed = true;
+    errno = io::fault_errno((uint32_t)lim);
+    return -1;
+  }
   size_t ask = (lim && n > lim) ? lim : n;
   ssize_t r = is64 ? __real_pread64(fd, buf, ask, off) : __real_pread(fd, buf, ask, off);
   if (r < 0) m.failed = true;
@@ -271,6 +360,46 @@ int __wrap_close(int fd) {
     m.closes.push_back(fd);
     if (r != 0) m.failures++;
   }
+  return r;
+}
+
+ssize_t __wrap_write(int fd, const void* buf, size_t n) {
+  io::WriteMon& m = io::wm();
+  if (!m.active.load(std::memory_order_relaxed) || !m.matches(fd)) return __real_write(fd, buf, n);
+  size_t ask;
+  if (io::write_plan_step(n, &ask)) return -1;
+  ssize_t r = __real_write(fd, buf, ask);
+  if (r > 0) m.bytes += (uint64_t)r;
+  return r;
+}
+static inline ssize_t c14_pwrite_common(int fd, const void* buf, size_t n, off_t off, bool is64) {
+  io::WriteMon& m = io::wm();
+  if (!m.active.load(std::memory_order_relaxed) || !m.matches(fd)) return is64 ? __real_pwrite64(fd, buf, n, off) : __real_pwrite(fd, buf, n, off);
+  size_t ask;
+  if (io::write_plan_step(n, &ask)) return -1;
+  ssize_t r = is64 ? __real_pwrite64(fd, buf, ask, off) : __real_pwrite(fd, buf, ask, off);
+  if (r > 0) m.bytes += (uint64_t)r;
+  return r;
+}
+ssize_t __wrap_pwrite(int fd, const void* buf, size_t n, off_t off) { return c14_pwrite_common(fd, buf, n, off, false); }
+ssize_t __wrap_pwrite64(int fd, const void* buf, size_t n, off_t off) { return c14_pwrite_common(fd, buf, n, off, true); }
+ssize_t __wrap_writev(int fd, const struct iovec* iov, int cnt) {
+  io::WriteMon& m = io::wm();
+  if (!m.active.load(std::memory_order_relaxed) || !m.matches(fd)) return __real_writev(fd, iov, cnt);
+  size_t total = 0;
+  for (int i = 0; i < cnt; i++) total += iov[i].iov_len;
+  size_t ask;
+  if (io::write_plan_step(total, &ask)) return -1;
+  if (ask == total) {
+    ssize_t r = __real_writev(fd, iov, cnt);
+    if (r > 0) m.bytes += (uint64_t)r;
+    return r;
+  }
+  // short: write a prefix of the gathered data
+  std::string flat;
+  for (int i = 0; i < cnt; i++) flat.append((const char*)iov[i].iov_base, iov[i].iov_len);
+  ssize_t r = __real_write(fd, flat.data(), ask);
+  if (r > 0) m.bytes += (uint64_t)r;
   return r;
 }
 }
